@@ -283,6 +283,14 @@ fn gen_bounds(t: &mut Tape, cfg: &GenCfg) -> (usize, Option<usize>, u8) {
         h => h,
     };
     let spell = t.below(2) as u8;
+    if cfg.violate > 0 && t.chance(cfg.violate / 3) {
+        // misordered / degenerate bounds (rule R6); spelled canonically so that they stay as written
+        return match t.below(3) {
+            0 => (0, Some(0), 0),
+            1 => (lo + 1 + t.below(2), Some(lo), 0),
+            _ => (2, Some(1), 0),
+        };
+    }
     (lo, hi, spell)
 }
 
